@@ -261,20 +261,41 @@ func suiteFault(r *rng, n int) {
 			// a client revalidating what it holds, on a COLD key (the proxy withholds the validators from the origin so
 			// that a full response is stored) and again on the hit: its validators match, so it gets a 304 — by ETag,
 			// by Last-Modified alone, or both
-			kind := cr.pick([]string{"etag", "modified", "both"})
+			inm := cr.pick([]string{"", "", condETag, condETag, "W/" + condETag, "\"zz\"", "*", "\"zz\", " + condETag, condETag + " , \"q\"", "  " + condETag, "\"zz\",\"yy\""})
+			ims := cr.pick([]string{"", "", condLastModified, condLastModified, "Sun, 31 Dec 2023 00:00:00 GMT", "Tue, 02 Jan 2024 00:00:00 GMT", "yesterday"})
+			cc := cr.pick([]string{"", "", "", "no-cache", "max-age=0", "max-age=0, no-cache", "no-cache-please", " no-cache "})
 			extra = http.Header{}
-			if kind != "modified" {
-				extra["If-None-Match"] = []string{condETag}
+			if inm != "" {
+				extra["If-None-Match"] = []string{inm}
 			}
-			if kind != "etag" {
-				extra["If-Modified-Since"] = []string{condLastModified}
+			if ims != "" {
+				extra["If-Modified-Since"] = []string{ims}
+			}
+			if cc != "" {
+				extra["Cache-Control"] = []string{cc}
+			}
+			unix := func(d string) int64 {
+				t, err := time.Parse(time.RFC1123, d)
+				if err != nil {
+					return 0
+				}
+				return t.Unix()
 			}
 			p := fmt.Sprintf("%s/cond/%d", pre, i)
 			r1 := do("GET", p, nil)
 			r2 := do("GET", p, nil)
 			extra = nil
 			r3 := do("GET", p, nil) // a plain client afterwards gets the stored full response
-			emit("fault", "cond", hx(kind), b2s(pre != ""), "=>", itoa(int64(r1.code)), hx(r1.xs), itoa(int64(r2.code)), hx(r2.xs), itoa(int64(r3.code)), itoa(int64(r3.n)), hx(r3.xs), itoa(int64(o.count(p))))
+			emit("fault", "cond", hx(inm), b2s(ims != ""), itoa(unix(ims)), hx(cc), itoa(unix(condLastModified)), hx(condETag), "=>",
+				itoa(int64(r1.code)), hx(r1.xs), itoa(int64(r2.code)), hx(r2.xs), itoa(int64(r3.code)), itoa(int64(r3.n)), hx(r3.xs), itoa(int64(o.count(p))))
+			kind := "none"
+			if inm != "" && ims != "" {
+				kind = "both"
+			} else if inm != "" {
+				kind = "etag"
+			} else if ims != "" {
+				kind = "modified"
+			}
 			stat("cond-" + kind)
 		case 0:
 			method := cr.pick([]string{"GET", "HEAD", "DELETE", "POST", "POST", "PUT", "OPTIONS"})
